@@ -89,22 +89,57 @@ def log_mode_rule(db, chk):
     dels = [c for c in f.calls_to(r"std::fs::remove_file$") if fl.derives_from_call(c.args[0], r"::reference_path$")]
     chk.floor("commit_inner: removal of a reference file", len(dels), 1)
 
-    def is_mode_eq(c):
+    def is_mode_eq(c, g=None, gfl=None):
+        g = g or f
+        gfl = gfl or fl
         if not c.is_(r"cmp::PartialEq(<.*>)?>?::eq$") or len(c.args) != 2:
             return False
-        tys = [f.locals[a["p"][0]] if "p" in a and isinstance(a["p"][0], int) else "" for a in c.args]
+        tys = [g.locals[a["p"][0]] if "p" in a and isinstance(a["p"][0], int) else "" for a in c.args]
         if not any("transaction::RefLog" in t for t in tys):
             return False
         # the constant side must be the AndReference variant
         for a in c.args:
-            for r in fl.roots(a, stop_named=False):
+            for r in gfl.roots(a, stop_named=False):
                 if r[0] == "promoted":
-                    pr = f.promoteds.get("%s::{promoted#%s}" % (f.name, r[1]))
+                    pr = g.promoteds.get("%s::{promoted#%s}" % (g.name, r[1]))
                     if pr is not None and any((rv[0] == "agg" and rv[3] == "AndReference") or (rv[0] == "use" and rv[1].get("variant") == "AndReference") for bi, si, pl, rv, ln, mc in pr.assigns()):
                         return True
                 if r[0] == "const" and isinstance(r[1], str) and "AndReference" in r[1]:
                     return True
         return False
+
+    def flag_bad_defs(g, L, depth=0):
+        """lines at which local L of g can become true without a `mode == AndReference` test having succeeded"""
+        gfl = Flow(g)
+        geqs = [c for c in g.calls() if is_mode_eq(c, g, gfl)]
+        te = set()
+        for c in geqs:
+            te |= gfl.result_edges(c)["good"]
+        bad = []
+        for bi, si, pl, rv, ln, mc in g.assigns():
+            if pl != [L]:
+                continue
+            if rv[0] == "use" and "p" not in rv[1] and rv[1].get("v") == 0:
+                continue
+            if rv[0] == "use" and "p" in rv[1] and len(rv[1]["p"]) == 1 and g.locals[rv[1]["p"][0]] == "bool":
+                bad += flag_bad_defs(g, rv[1]["p"][0], depth) if depth < 4 else [ln]
+                continue
+            if not (te and gfl.cut_off([bi], te)):
+                bad.append(ln)
+        for c in g.calls():
+            if c.dest != [L] or c in geqs:
+                continue
+            clo = getattr(c, "callee", {}).get("recv_closure") if isinstance(getattr(c, "callee", None), dict) else None
+            h = next((x for x in db.closures_of(f) if x.name == clo), None) if clo else None
+            if h is not None and depth < 3:
+                sub = flag_bad_defs(h, 0, depth + 1)
+                # the closure's result is fine if it cannot be true without the test; otherwise the call site must itself be behind one
+                if sub and not (te and gfl.cut_off([c.block], te)):
+                    bad.append(c.line)
+            elif not (te and gfl.cut_off([c.block], te)):
+                bad.append(c.line)
+        return bad
+
     eqs = [c for c in f.calls() if is_mode_eq(c)]
     chk.floor("commit_inner: comparisons `mode == RefLog::AndReference`", len(eqs), 1)
     true_edges = set()
@@ -136,17 +171,7 @@ def log_mode_rule(db, chk):
                 L = ds[0][1][1]["p"][0]
             else:
                 break
-        bad = []
-        for bi, si, pl, rv, ln, mc in f.assigns():
-            if pl != [L]:
-                continue
-            if rv[0] == "use" and "p" not in rv[1] and rv[1].get("v") == 0:
-                continue
-            if not fl.cut_off([bi], true_edges):
-                bad.append(ln)
-        for c in f.calls():
-            if c.dest == [L] and c not in eqs:
-                bad.append(c.line)
+        bad = flag_bad_defs(f, L)
         chk.ob("reference-removed-only-with-AndReference", "commit_inner remove_file@%d" % d.line, not bad,
                "the flag deciding the removal of the reference file can become true without `mode == RefLog::AndReference` (line(s) %s): a log-only edit - the parent of a split deref edit - would delete its symbolic ref" % sorted(set(bad)),
                d.where(), key="log-mode|commit_inner|remove_file")
